@@ -235,7 +235,23 @@ def run(ctx):
                 if saved and all(i in b.reachable(j) for j, _ in through_ref):
                     good = True
             if good:
-                res.ok(key, b.where(), "in_loop=true around the body, saved value restored")
+                # ... on every way to a success value (an error aborts the parse: nothing is checked against the scope any more)
+                from .guard import success_blocks
+                restore_bbs = [i for i, s in restores if _reads_in_loop(b, op_local(s["rv"]["o"]), 0)]
+                succ_bbs = success_blocks(b) or b.return_blocks()
+                leaks = []
+                for j, _ in through_ref:
+                    reach = b.reachable_after(j, avoid=restore_bbs) | ({j} if j not in restore_bbs else set())
+                    # a restore in the same block as the success value counts when it comes first; blocks are atomic here
+                    leaks += [x for x in succ_bbs if x in reach and x not in restore_bbs]
+                if leaks:
+                    good = False
+                    res.bad(key, "%s sets in_loop=true on the caller's scope and can return successfully without restoring the saved value "
+                                 "(some path skips the restore): code after the loop is then checked as if inside it and a stray "
+                                 "break / continue is accepted" % bid, b.where(b.blocks[leaks[0]]["term"].get("line")))
+                    continue
+            if good:
+                res.ok(key, b.where(), "in_loop=true around the body, saved value restored on every successful path")
             else:
                 res.bad(key, "%s sets in_loop=true on the caller's scope and does not restore the saved value: code after the "
                              "loop is checked as if inside it (break/continue accepted outside a loop)" % bid, b.where(through_ref[0][1].get("line")))
